@@ -207,7 +207,7 @@ def workbook_configs(chk):
             R('ok-int', 'empty', 'empty', 'empty'), R('ok-float', 'rfi', 'empty', 'au'), R('ok-int', 'mef', 'empty', 'empty')]
     cfgs = []
     rnd = np.random.RandomState(chk.seed)
-    n = 4 if chk.quick else 24
+    n = 5 if chk.quick else 24
     for i in range(n):
         two = i % 3 == 2
         insts = ['A', 'B'] if two else [['A'], ['B']][i % 2]
@@ -230,6 +230,71 @@ def workbook_configs(chk):
         cfgs.append(dict(instruments=sorted(set(insts)), beads=beads, samples=samples, plot=(i % 2 == 1), hist=(i % 4 in (1, 2)),
                          explicit_out=(i % 3 == 0), cli=(i % 4 == 2)))
     return cfgs
+
+
+def env_job(job):
+    """replay one RunEnv history: chdir / stray look-alike folders / repeated runs on one workbook"""
+    idx, st = job
+    hist = st['hist']
+    d = os.path.join(W.dir, 'env_%d' % idx)
+    other = os.path.join(W.dir, 'env_%d_other' % idx)
+    os.makedirs(d, exist_ok=True)
+    os.makedirs(other, exist_ok=True)
+    for f in os.listdir(W.dir):
+        if f.endswith('.fcs') and not os.path.exists(os.path.join(d, f)):
+            os.symlink(os.path.join(W.dir, f), os.path.join(d, f))
+    bt = W.beads_table('none', 'A', rows=('BOK',))
+    stt = W.samples_table([dict(file='ok-int', frac='in', units=['rfi', 'mef', 'empty'], beads='ok')], inst='A', variant=idx, fracs=[0.5])
+    stt.loc['S1', 'Beads ID'] = 'BOK'
+    inp = os.path.join(d, 'experiment.xlsx')
+    with pd.ExcelWriter(inp, engine='openpyxl') as wr:
+        W.instruments.loc[['A']].reset_index().to_excel(wr, sheet_name='Instruments', index=False)
+        bt.reset_index().rename(columns={'index': 'ID'}).to_excel(wr, sheet_name='Beads', index=False)
+        stt.reset_index().rename(columns={'index': 'ID'}).to_excel(wr, sheet_name='Samples', index=False)
+    labels = []
+    here = os.getcwd()
+    place = {'wb': d, 'other': other}
+    try:
+        os.chdir(d)
+        for k, (op, a) in enumerate(hist):
+            if op == 'chdir':
+                os.chdir(place[a])
+            elif op == 'stray':
+                os.makedirs(os.path.join(other, a))
+            else:
+                out = os.path.join(d, 'experiment_output.xlsx')
+                if os.path.exists(out):
+                    os.remove(out)
+                np.random.seed(11)
+                try:
+                    with warnings.catch_warnings():
+                        warnings.simplefilter('ignore')
+                        FlowCal.excel_ui.run(input_path=inp, verbose=False, plot=(a == 'plots'), hist_sheet=False)
+                except Exception as e:  # noqa
+                    labels.append(('run-raised/%s/step-%d' % (type(e).__name__, k), str(e)[:120]))
+                    break
+                if not os.path.exists(out):
+                    labels.append(('output-workbook-missing/step-%d' % k, out))
+                    break
+                labels += [(x + '/env', y) for x, y in check_output(out, W.instruments.loc[['A']].reset_index(), bt.reset_index(),
+                                                                      stt.reset_index(), False)]
+                if a == 'plots':
+                    for w in ('plot_beads/density_hist_BOK.png', 'plot_beads/clustering_BOK.png', 'plot_samples/S1.png'):
+                        if not os.path.exists(os.path.join(d, w)):
+                            labels.append(('figure-missing/env', w))
+        # final file-system state against the specification's
+        real_dirs = sorted([p, kd] for p in ('wb', 'other') for kd in ('plot_beads', 'plot_samples') if os.path.isdir(os.path.join(place[p], kd)))
+        real_figs = sorted([p, kd] for p, kd in real_dirs if os.listdir(os.path.join(place[p], kd)))
+        if not labels:
+            if real_dirs != sorted(list(x) for x in st['dirs']):
+                labels.append(('folders/env', repr(real_dirs)))
+            elif real_figs != sorted(list(x) for x in st['figs']):
+                labels.append(('figures-in-wrong-folder/env', repr(real_figs)))
+    finally:
+        os.chdir(here)
+        shutil.rmtree(d, ignore_errors=True)
+        shutil.rmtree(other, ignore_errors=True)
+    return labels
 
 
 def example_job(plot):
@@ -285,12 +350,30 @@ def main(chk, replay=None):
     for inst in ('A', 'B'):
         W.beads('none', inst)
     cfgs = workbook_configs(chk)
+    res3 = tlc.require_ok(tlc.run_tlc('RunEnv', 'SPECIFICATION Spec\nCONSTANT MaxOps = %d\nINVARIANT StrayUntouched\n'
+                                      'INVARIANT FiguresUnderWorkbook\nPROPERTY RunCompletes\nPROPERTY NothingRemoved\n' % (3 if chk.quick else 4),
+                                      dump=True), 'RunEnv')
+    chk.add_tlc(res3, 'RunEnv')
+    envs = [st for st in res3.dump_states() if st['hist'] and st['hist'][-1][0] == 'run' and len(st['hist']) >= 2]
+    if chk.quick:      # histories ending in a run with plots that follows an earlier run or a stray folder
+        envs = [st for st in envs if st['hist'][-1][1] == 'plots' and
+                any(h[0] == 'stray' or h == ['run', 'plots'] for h in st['hist'][:-1])]
     with mp.get_context('fork').Pool(min(16, os.cpu_count() or 1)) as pool:
+        envr = pool.map_async(env_job, list(enumerate(envs)), chunksize=1)
         ex = pool.apply_async(example_job, (not chk.quick,))
         runs = pool.map_async(run_job, list(enumerate(cfgs)), chunksize=1)
         rts = pool.map(roundtrip_job, rt, chunksize=20)
         runs = runs.get()
         ex = ex.get()
+        envr = envr.get()
+    for st, labels in zip(envs, envr):
+        chk.case(('env', json.dumps(st['hist'])), nontrivial=True,
+                 sample={'environment_history': st['hist'], 'spec_state': {'dirs': st['dirs'], 'figs': st['figs']},
+                         'verdict': labels or 'as specified'} if len(st['hist']) == 3 and st['hist'][0][0] == 'chdir' and st['hist'][1][0] == 'stray' else None)
+        chk.traces += 1
+        for lab, det in labels:
+            chk.violation('C15/run-environment/%s' % lab, {'environment_history': st['hist']},
+                          {'dirs': st['dirs'], 'figs': st['figs'], 'res': st['res']}, det)
     neg = False
     for (i, table, exp), lab in zip(rt, rts):
         chk.case(('rt', json.dumps(table)), nontrivial=any(r[0] == '' for r in table) or exp['k'] == 'refused',
